@@ -102,6 +102,11 @@ def standard_lattice(seed, quick):
         {"kwargs": {"reparameterisations": {"rescaletobounds": {"parameters": ["x0", "x1"], "prior": "uniform", "rescale_bounds": [0.0, 1.0]}}}},
         {"model": "G2open", "kwargs": {"reparameterisations": {"rescaletobounds": {"parameters": ["x0", "x1"], "prior": "uniform", "rescale_bounds": [0.0, 1.0]}}}},
         {"model": "G2edge", "kwargs": {"reparameterisations": {"rescaletobounds": {"parameters": ["x0", "x1"], "prior": "uniform", "rescale_bounds": [-2.0, 5.0]}}}},
+        # a likelihood that rewards leaving through a lower face on one axis and an upper face on the other
+        {"model": "G2openmix"},
+        {"model": "G2openmix", "kwargs": {"reparameterisations": {"rescaletobounds": {"parameters": ["x0", "x1"], "prior": "uniform", "rescale_bounds": [0.0, 1.0]}}}},
+        {"model": "G2openmix", "kwargs": {"reparameterisations": {"rescaletobounds": {"parameters": ["x0", "x1"], "prior": "uniform", "rescale_bounds": [-3.0, -1.0]}}}},
+        {"model": "G2openmix", "kwargs": {"reparameterisations": {"rescaletobounds": {"parameters": ["x0", "x1"], "prior": "uniform", "rescale_bounds": [-0.5, 0.5], "update_bounds": False}}}},
         # deprecated layout: training options inside flow_config (also resumed)
         {"kwargs": {"flow_config": {"max_epochs": 5, "patience": 5, "batch_size": 100}, "training_config": None}, "resume": "every"},
         {"model": "G2edge"},
